@@ -115,8 +115,9 @@ Call(op) ==
                           /\ gerr' = None /\ pos' = 0 /\ err' = None /\ nextc' = 0
        [] OTHER -> ist # None /\ UNCHANGED <<ist, gpc, gerr, pos, err, nextc>>
   /\ tcall' = (ist \in Terminal) /\ dcall' = Len(delivered)
+  /\ closes' = (IF op = "fetch" THEN 0 ELSE closes)        \* closes of the current iterator
   /\ UNCHANGED <<scen, held, spc, cur, inbox, answered, cancelled, reqs, delivered, opened, released, resumed,
-                 handled, closes, lastnext>>
+                 handled, lastnext>>
 
 RetFetch ==
   /\ cop = "fetch" /\ cop' = None
@@ -290,6 +291,7 @@ GExamine ==   \* UnmarshalIQ: decodes <fin/> or the error and closes the respons
 
 GRemove ==    \* ends the iteration: Next returns false from now on, Err reports G's error
   /\ mode = "push" /\ gpc = "rem" /\ gpc' = "done"
+  /\ ~("CloseBlocksOnPush" \in Dev /\ spc = "push")      \* (the deviation: one lock around offer, Close and this step)
   /\ IF ist = "open"
      THEN /\ ist' = IF gerr = None THEN "exhausted" ELSE "failed"
           /\ err' = gerr /\ nextc' = (IF gerr = None /\ More(P) THEN P ELSE 0)
